@@ -44,7 +44,7 @@ POf(e) == Op(e.op.t, e.op.s, e.op.r, e.op.o, e.op.own, e.op.h, e.op.rv)
 
 ever0 == [r \in Res |-> [o \in Objs |-> {}]]
 infl0 == [r \in Res |-> {}]
-TInit == Init /\ l = 1 /\ obs = NoObs /\ pobs = NoObs /\ ever = ever0 /\ infl = infl0 /\ pinfl = infl0
+TInit == Init /\ late = 0 /\ l = 1 /\ obs = NoObs /\ pobs = NoObs /\ ever = ever0 /\ infl = infl0 /\ pinfl = infl0
 
 \* What the barrier can confirm.  The informer updates its cache first and hands the
 \* notification to the shared handler afterwards, on another goroutine.  The harness can
@@ -66,6 +66,7 @@ Reset ==
   /\ st' = st0 /\ sres' = sres0 /\ hinfo' = <<>> /\ store' = store0 /\ rvc' = 0 /\ usedO' = usedO0
   /\ fRef' = fRef0 /\ fShared' = fSh0 /\ inf' = inf0 /\ sgen' = sgen0 /\ reg' = reg0
   /\ timers' = {} /\ lists' = lists0 /\ lop' = NoOp /\ recv' = <<>> /\ n' = 0 /\ hist' = <<>>
+  /\ late' = IF "late" \in DOMAIN E THEN E.late ELSE 0
   /\ ever' = ever0 /\ obs' = [NoObs EXCEPT !.sc = E.sc] /\ pobs' = NoObs /\ infl' = infl0 /\ pinfl' = infl0
 
 Step(o) ==
